@@ -59,7 +59,9 @@ LeavesOf(fam) ==
                           Uni(<<Obj(<<Prop("kind", LS("labels"), FALSE)>>, <<Ix(TString, TString)>>), Ref("Sq")>>),
                           Uni(<<Ref("Cp"), Ref("Sq")>>),
                           Uni(<<Obj(<<Prop("kind", LS("a-b"), FALSE), Prop("x", TNumber, FALSE)>>, <<>>),
-                                Obj(<<Prop("kind", LS("a_b"), FALSE), Prop("y", TString, FALSE)>>, <<>>)>>)}
+                                Obj(<<Prop("kind", LS("a_b"), FALSE), Prop("y", TString, FALSE)>>, <<>>)>>),
+                          \* named intersection members that declare the same property with types differing only in depth
+                          Inter(<<Ref("Ma"), Ref("Mb")>>), Inter(<<Ref("Mb"), Ref("Ma")>>)}
     [] fam = "describe" -> {Obj(<<Prop("my-key", TString, FALSE), Prop("b", TNumber, TRUE)>>, <<>>),
                             Obj(<<Prop("a b", TString, TRUE)>>, <<>>),
                             Obj(<<Prop("0", TString, FALSE), Prop("$x", TNumber, FALSE)>>, <<>>),
@@ -88,7 +90,7 @@ Unary ==
     [] Family = "object" -> {"objReq", "objOpt", "index", "arr", "alias", "rec", "iface"}
     [] Family = "tuple"  -> {"tup1", "tupRest0", "arr", "alias", "recTuple"}
     [] Family = "union"  -> {"arr", "objReq", "alias"}
-    [] Family = "tpl"    -> {"arr", "objReq", "index", "indexKey"}
+    [] Family = "tpl"    -> {"arr", "objReq", "index", "indexKey", "indexKeyAny"}
     [] Family = "nonjson" -> {"arr", "objReq", "objOpt", "set", "alias"}
     [] Family = "format" -> {"arr", "objReq", "index"}
     [] Family = "disc"   -> {"arr", "objReq", "objOpt"}
@@ -112,7 +114,10 @@ PresetEnv ==
     [n |-> "Base", kind |-> "type", ty |-> Obj(<<Prop("kind", Uni(<<LS("circle"), LS("ellipse")>>), FALSE), Prop("id", TString, FALSE)>>, <<>>)],
     [n |-> "Cp",   kind |-> "type", ty |-> Obj(<<Prop("kind", LS("circle"), FALSE), Prop("r", TNumber, FALSE)>>, <<>>)],
     [n |-> "Sq",   kind |-> "type", ty |-> Obj(<<Prop("kind", LS("sq"), FALSE), Prop("s", TNumber, FALSE)>>, <<>>)],
-    [n |-> "Lb",   kind |-> "type", ty |-> Obj(<<Prop("kind", LS("labels"), FALSE)>>, <<Ix(TString, TString)>>)] >>
+    [n |-> "Lb",   kind |-> "type", ty |-> Obj(<<Prop("kind", LS("labels"), FALSE)>>, <<Ix(TString, TString)>>)],
+    [n |-> "Ma",   kind |-> "type", ty |-> Obj(<<Prop("id", TString, FALSE),
+                                                 Prop("meta", Obj(<<Prop("kind", Uni(<<LS("p"), LS("q")>>), FALSE)>>, <<>>), FALSE)>>, <<>>)],
+    [n |-> "Mb",   kind |-> "type", ty |-> Obj(<<Prop("meta", Obj(<<Prop("kind", TString, FALSE)>>, <<>>), FALSE), Prop("z", TNumber, TRUE)>>, <<>>)] >>
   ELSE <<>>
 
 FreshName == IF env = <<>> THEN "A" ELSE IF Len(env) = 1 THEN "B" ELSE "C"
@@ -123,6 +128,7 @@ ApplyUnary(a, t) ==
     [] a = "objOpt"   -> Obj(<<Prop("a", t, TRUE)>>, <<>>)
     [] a = "index"    -> Obj(<<>>, <<Ix(TString, t)>>)
     [] a = "indexKey" -> Obj(<<>>, <<Ix(t, TNumber)>>)
+    [] a = "indexKeyAny" -> Obj(<<>>, <<Ix(t, Prim("unknown"))>>)
     [] a = "tup1"     -> Tup(<<t>>, <<>>)
     [] a = "tupRest0" -> Tup(<<>>, <<t>>)
     [] a = "set"      -> SetT(t)
